@@ -299,6 +299,21 @@ def mutate(rng, tgt, ios, with_groups=True, unmanaged=True, max_edits=None):
             d1, d2 = rename_refs(l1, {'gS': 'dS'}), rename_refs(l2, {'gT': 'dT'})
             dev['acls'][a][0:0] = [d1, d2] if order else [d2, d1]
             info['edits'].append('grp-shift')
+    if with_groups and not ios and dev['acls'] and rng.random() < 0.25:
+        # a device group gets a member in place (sub-mode of the group), then a line of the same ACL is deleted by a
+        # top-level command and the group only that line used becomes unused: mode changes between sub-mode and top level
+        a = rng.choice(sorted(dev['acls']))
+        ta = next((k for k, v in amap.items() if v == a), a)
+        if ta in tgt['acls'] and 'gE' not in tgt['groups']:
+            E = [['network-object', 'host', '10.45.0.%d' % i] for i in (1, 2, 3)]
+            l1 = ['extended', 'permit', 'udp', 'object-group', 'gE', 'any4', 'eq', '4601']
+            lo = ['extended', 'permit', 'udp', 'object-group', 'dOld-DRC-1', 'any4', 'eq', '4602']
+            tgt['groups']['gE'] = (['network'], copy.deepcopy(E) + [['network-object', 'host', '10.45.0.%d' % rng.choice([4, 5])]])
+            dev['groups']['dE-DRC-0'] = (['network'], copy.deepcopy(E))
+            dev['groups']['dOld-DRC-1'] = (['network'], [['network-object', 'host', '10.46.0.1'], ['network-object', 'host', '10.46.0.2']])
+            tgt['acls'][ta][0:0] = [l1]
+            dev['acls'][a][0:0] = [rename_refs(l1, {'gE': 'dE-DRC-0'}), lo] if rng.random() < 0.7 else [lo, rename_refs(l1, {'gE': 'dE-DRC-0'})]
+            info['edits'].append('grp-edit-del')
     used = set(r for ls in dev['acls'].values() for l in ls for r in refs(l))
     for g in list(dev['groups']):
         if g not in used and '-DRC-' not in g:
@@ -643,7 +658,24 @@ def core_pool(ios):
     for act in ('permit', 'deny'):
         for i in range(1, 9):
             bodies.append([act, 'ip', 'host', '10.0.0.%d' % i] + (['any'] if ios else ['any4']))
+    if ios:
+        for i in range(1, 5):
+            bodies.append(['remark', 'note%d' % i])
     return bodies
+
+
+def add_remarks(rng, al, bl, pool):
+    """IOS: remark lines in the device ACL, the target ACL or both, at independent places."""
+    rem = [i for i, b in enumerate(pool) if b[0] == 'remark']
+    rng.shuffle(rem)
+    al, bl = list(al), list(bl)
+    for r in rem[:rng.randint(1, 3)]:
+        where = rng.random()
+        if where < 0.75:
+            al.insert(rng.randrange(len(al) + 1), (r, 0))
+        if where > 0.25:
+            bl.insert(rng.randrange(len(bl) + 1), (r, 0))
+    return al, bl
 
 
 LOGS = [[], ['log'], ['log', '3']]
@@ -708,7 +740,58 @@ def gen_core_case_blocks(rng, pool):
     return al, bl
 
 
+def gen_core_case_split(rng, pool):
+    """IOS: a line is moved inside its block and a line of the other action is inserted between its old and its new
+    place (the block must be split, the move is needed), in either direction, in one or two insert ranges, optionally
+    with remark lines next to the insert position."""
+    perm = [i for i, b in enumerate(pool) if b[0] == 'permit']
+    deny = [i for i, b in enumerate(pool) if b[0] == 'deny']
+    rem = [i for i, b in enumerate(pool) if b[0] == 'remark']
+    rng.shuffle(perm); rng.shuffle(deny); rng.shuffle(rem)
+    mine, other = (perm, deny) if rng.random() < 0.5 else (deny, perm)
+    block = [(mine.pop(), 0) for _ in range(rng.randint(3, 5))]
+    pre = [(other.pop(), 0) for _ in range(rng.choice([0, 0, 1, 2]))]
+    post = [(other.pop(), 0) for _ in range(rng.choice([0, 1, 1, 2]))]
+    i, j = sorted(rng.sample(range(len(block)), 2))
+    new = (other.pop(), 0)
+    tb = list(block)
+    if rng.random() < 0.5:
+        x = tb.pop(j)                   # moved up to place i, the new line somewhere between
+        tb.insert(i, x)
+        k = rng.randint(i + 1, j)
+    else:
+        x = tb.pop(i)                   # moved down behind place j
+        tb.insert(j, x)
+        k = rng.randint(i, j - 1) if j - 1 >= i else i
+        k = max(k, 0)
+    tb.insert(min(k, len(tb)), new)
+    al, bl = pre + block + post, pre + tb + post
+    if rem and rng.random() < 0.5:
+        # a remark directly in front of or behind the new line, in both ACLs, at the same lines
+        r = (rem.pop(), 0)
+        p = bl.index(new)
+        nb = bl[p + 1] if rng.random() < 0.5 and p + 1 < len(bl) else None
+        if nb is not None and nb in al:
+            al.insert(al.index(nb), r)
+            bl.insert(bl.index(nb), r)
+        elif p > 0 and bl[p - 1] in al:
+            a = bl[p - 1]
+            al.insert(al.index(a) + 1, r)
+            bl.insert(bl.index(a) + 1, r)
+    return al, bl
+
+
 def gen_core_case(rng, ios, pool):
+    if ios:
+        if rng.random() < 0.25:
+            return gen_core_case_split(rng, pool)
+        rules = [b for b in pool if b[0] != 'remark']
+        al, bl = gen_core_case_rules(rng, ios, rules)
+        return add_remarks(rng, al, bl, pool) if rng.random() < 0.35 else (al, bl)
+    return gen_core_case_rules(rng, ios, pool)
+
+
+def gen_core_case_rules(rng, ios, pool):
     if ios and rng.random() < 0.7:
         return gen_core_case_blocks(rng, pool)
     n = rng.randint(1, 7)
